@@ -456,12 +456,8 @@ func runProgram(o *hxlib.Out, r *hxlib.Rng, idx int, pc progCase, lim limits, pa
 			d := map[string]any{"case": idx, "prog": pc.name, "src": pc.src,
 				"config_a": cfgs[0].name, "outcome_a": "ok", "config_b": cfgs[i].name, "outcome_b": res[i].err,
 				"target_b": cfgs[i].tgt.String(), "uses_divmod": fmt.Sprint(pc.usesDiv), "cause": "unknown"}
-			// known: the GMW Goldschmidt divider indexes out of range when its
-			// operands differ in width (it does not ZeroPad them)
-			if cfgs[i].tgt == utils.TargetGMW && pc.usesDiv && strings.Contains(res[i].err, "index out of range") &&
-				strings.Contains(res[i].err, "[in NewUDividerGoldschmidtFast]") {
-				d["cause"] = "gmw-divider-operand-width-panic"
-			}
+			// (the operand-width panic of the GMW divider was fixed by dcb521a;
+			// no compile-outcome difference is attributed any more)
 			o.Fail("c09-compile-outcome-differs", d)
 			continue
 		}
@@ -554,17 +550,33 @@ func runProgram(o *hxlib.Out, r *hxlib.Rng, idx int, pc progCase, lim limits, pa
 			o.Count("config_pairs_exhaustive")
 		}
 	}
-	if pc.name == "fixed:sdiv-const-narrow" {
+	if pc.name == "fixed:udiv2" {
 		// the circuits of the Lean negation witness Mpc.C09_target_equivalence_fails
 		y, g := res[1].circ, res[len(cfgs)-1].circ
 		if y != nil && g != nil {
-			x := []bool{true, false, false, false}
+			x := []bool{false, false, false, false}
 			o.Meta["negation_witness"] = map[string]any{"src": pc.src, "yao": hxlib.CircLine(y), "gmw": hxlib.CircLine(g),
 				"x": hxlib.BitsString(x), "out_yao": realCompute(y, x), "out_gmw": realCompute(g, x)}
 		}
 	}
 	if pc.name == "fixed:udiv7" {
 		dividerProbe(o, base.circ, res[len(cfgs)-1].circ)
+		// executed witness of the divider inexactness for a non-zero divisor:
+		// the two real width-7 circuits on a=127, b=13, evaluated by
+		// Circuit.Compute here and by the compiled Lean model in the driver
+		// (the checker verdict of this cross-target pair is irrelevant)
+		y, g := res[1].circ, res[len(cfgs)-1].circ
+		if y != nil && g != nil {
+			x := make([]bool, 14)
+			for i := 0; i < 7; i++ {
+				x[i] = true               // a = 127
+				x[7+i] = (13>>uint(i))&1 == 1 // b = 13
+			}
+			op := fmt.Sprintf("c09 pair fixed:udiv7|witness/127-13 %s %s - - %s", hxlib.CircLine(y), hxlib.CircLine(g), hxlib.BitsString(x))
+			o.Op(op, fmt.Sprintf("chk=n/a;c=%s;c2=%s", realCompute(y, x), realCompute(g, x)))
+			*pairsMeta = append(*pairsMeta, map[string]any{"prog": pc.name, "tag": "witness/127-13", "corpus": false,
+				"witness": true, "gates": len(y.Gates), "gates2": len(g.Gates), "case": idx})
+		}
 	}
 	// ---- proved checker: op lines
 	xs := sampleInputs(r, nin)
@@ -807,14 +819,13 @@ func reportMismatch(o *hxlib.Out, idx int, pc progCase, ca, cb config, A, B *cir
 		} else if pc.usesDiv {
 			d["divider_attributed"] = "textual"
 		}
-		// cause: the two known divider defects of the GMW target, or unknown
+		// cause: only the remaining known defect (inexact Goldschmidt divider)
+		// is attributed; it never leaves output wires undriven (that defect
+		// was fixed by 90ed06e: an undriven output is reported as unknown).
 		d["cause"] = "unknown"
-		if cb.tgt == utils.TargetGMW && pc.usesDiv && d["divider_attributed"] != "false" {
-			if undefinedOutputs(B) > 0 {
-				d["cause"] = "gmw-divider-result-undriven"
-			} else {
-				d["cause"] = "gmw-divider-inexact"
-			}
+		d["gmw_undriven_outputs"] = undefinedOutputs(B)
+		if cb.tgt == utils.TargetGMW && pc.usesDiv && d["divider_attributed"] != "false" && undefinedOutputs(B) == 0 {
+			d["cause"] = "gmw-divider-inexact"
 		}
 	case cb.thr != ca.thr:
 		sig = "c09-threshold-mismatch"
